@@ -37,6 +37,26 @@ def wireOp (args : List String) : String :=
         | none => "error"
       "cl=" ++ g .contentLength ++ " ehlo=" ++ g .ehlo ++ " sender=" ++ g .sender ++ " rcpt=" ++ g .rcpt ++ " || " ++ out
     | _, _, _, _ => "bad-op"
+  | ["edgeenv", dflt, opts, ehlo, sender, rcpts, data] =>
+    -- a request that is NOT what the relay writes: no recipient header / no X-Ehlo header / a Content-Length shorter than the body
+    -- (`opts`: comma-separated `norcpt`, `noehlo`, `cl=<n>`), and what the edge makes of it (`dflt`: the `[REMOTE_ADDR]` default)
+    match hexOrEmpty dflt, hexOrEmpty ehlo, hexOrEmpty sender, parseBytesList rcpts, hexOrEmpty data with
+    | some df, some e, some s, some rs, some d =>
+      let env : HttpHop.Env := { ehlo := natsOfBytes e, sender := natsOfBytes s, rcpts := rs.map natsOfBytes, data := natsOfBytes d }
+      let req0 := HttpHop.buildRequest env
+      let os := opts.splitOn ","
+      let hs1 := if os.contains "norcpt" then req0.headers.filter (fun h => !(h.1 == HttpHop.HName.rcpt)) else req0.headers
+      let hs2 := if os.contains "noehlo" then hs1.filter (fun h => !(h.1 == HttpHop.HName.ehlo)) else hs1
+      let hs3 := match os.find? (·.startsWith "cl=") with
+        | some o => match (o.drop 3).toString.toNat? with
+          | some n => hs2.map fun h => if h.1 == HttpHop.HName.contentLength then (h.1, HttpHop.decimal n) else h
+          | none => hs2
+        | none => hs2
+      match HttpHop.edgeEnvelope (natsOfBytes df) { req0 with headers := hs3 } with
+      | some o => showHex (bytesOfNats o.ehlo) ++ " " ++ showHex (bytesOfNats o.sender) ++ " " ++
+          showBytesList (o.rcpts.map bytesOfNats) ++ " " ++ showHex (bytesOfNats o.data)
+      | none => "error"
+    | _, _, _, _, _ => "bad-op"
   | ["xreply", code, msg, cmd] =>
     match hexOrEmpty code, hexOrEmpty msg, (if cmd == "none" then some none else (hexOrEmpty cmd).map some) with
     | some c, some m, some k =>
